@@ -3,7 +3,9 @@
 schedule guide for the controlled scheduler: one directive per spec step that
 changes projected memory: `t<k>` (kernel thread whose fiber stepped) or `env`.
 The harness (VRT_GUIDE) runs the named thread until one of its steps changes
-tracked memory, then moves to the next directive; when the guide is exhausted
+tracked memory, then moves to the next directive; a silent spec step whose label is
+listed in the module's ACCESS map (a read of shared memory) becomes `t<k>@<fn>:<field>`:
+run the thread until it has performed that read; when the guide is exhausted
 (or infeasible) it continues with its seeded policy.
 
   guide.py <counterexample.json> <out.guide>
@@ -15,7 +17,8 @@ PROJECTED = ["fstate", "mgr", "dq", "sfrom", "cur", "mtxc", "wq", "joininfo", "d
              "created", "tcount", "sll", "sleepers", "bctr", "semc", "mq", "rws"]
 
 
-def convert(cex_path, out_path):
+def convert(cex_path, out_path, access=None):
+    access = access or {}
     d = json.load(open(cex_path))
     states = [s[1] for s in d["counterexample"]["state"]]
     out = []
@@ -25,12 +28,17 @@ def convert(cex_path, out_path):
         if a.get("ticksGen") != b.get("ticksGen"):
             out.append("env")
             continue
-        if not visible or not moved:
+        if not moved:
             continue
         f = moved[0]
         t = [k for k, v in a["cur"].items() if v == f]
-        if t:
+        if not t:
+            continue
+        if visible:
             out.append("t" + str(t[0]))
+        elif a["pc"].get(f) in access:
+            fn, fld = access[a["pc"][f]]
+            out.append(f"t{t[0]}@{fn}:{fld}")
     # collapse nothing: each directive = one memory-changing step
     open(out_path, "w").write("\n".join(out) + "\n")
     return len(states), len(out)
